@@ -47,6 +47,20 @@ from glue.viewers.histogram.viewer import SimpleHistogramViewer  # noqa: E402
 from glue.viewers.image.viewer import SimpleImageViewer  # noqa: E402
 from glue.viewers.profile.viewer import SimpleProfileViewer  # noqa: E402
 
+_GC_READY = [False]
+
+
+def _gc_setup():
+    """gc stays disabled while a case runs (Subset.__del__ broadcasts); the objects that exist
+    before the first case (all imported modules) are frozen so that the explicit collections between
+    cases only look at what the cases allocated (a full collection costs 0.7 s otherwise)"""
+    if not _GC_READY[0]:
+        gc.collect()
+        gc.freeze()
+        _GC_READY[0] = True
+    gc.disable()
+
+
 VIEWERS = {'sc': SimpleScatterViewer, 'hi': SimpleHistogramViewer,
            'im': SimpleImageViewer, 'pr': SimpleProfileViewer}
 # restoring a histogram / profile viewer fails on this tree because of C12's known finding F12
@@ -61,6 +75,12 @@ RESTORABLE = ('sc', 'im')
 class ViewWorld:
     """The real objects of one case + the bookkeeping that gives them stable ids / names."""
 
+    # one (Application, DataCollection, viewer) per viewer class is recycled from case to case
+    # (construction costs 20-80 ms, an operation 5-10 ms): a case starts from a pooled world only if
+    # the previous case left it verifiably empty; a restored world is never pooled
+    _pool = {}
+    _uses = {}
+
     def __init__(self, n, cls):
         self.keep = []
         self.cls = cls
@@ -70,12 +90,42 @@ class ViewWorld:
         self.gid = {}
         self.snames = {}   # subset object -> canonical name
         self.anames = {}   # layer state object -> canonical name
-        self.dc = DataCollection()
-        self.app = Application(self.dc)
-        self.viewer = self.app.new_data_viewer(VIEWERS[cls])
+        pooled = ViewWorld._pool.pop(cls, None)
+        if pooled is not None and ViewWorld._uses.get(cls, 0) < 40:
+            self.dc, self.app, self.viewer = pooled
+            ViewWorld._uses[cls] = ViewWorld._uses.get(cls, 0) + 1
+        else:
+            self.dc = DataCollection()
+            self.app = Application(self.dc)
+            self.viewer = self.app.new_data_viewer(VIEWERS[cls])
+            ViewWorld._uses[cls] = 0
+        self.restored = False
         self.keep.extend(self.data)
         self.keep.extend([self.dc, self.app, self.viewer])
         self.err = False
+
+    def recycle(self):
+        """empty the world through the public API; pool it if that leaves nothing behind"""
+        if self.restored:
+            try:
+                self.viewer.cleanup()
+            except Exception:
+                pass
+            return
+        try:
+            dc, v = self.dc, self.viewer
+            for g in list(dc.subset_groups):
+                dc.remove_subset_group(g)
+            for d in list(dc.data):
+                dc.remove(d)
+            for d in self.data:
+                v.remove_data(d)
+            clean = (len(v.layers) == 0 and len(v.state.layers) == 0 and len(dc.data) == 0 and
+                     len(dc.subset_groups) == 0 and not dc.hub._queue and not dc.hub._paused)
+            if clean:
+                ViewWorld._pool[self.cls] = (dc, self.app, v)
+        except Exception:
+            pass
 
     # ---- lookup ----------------------------------------------------------------------------
     def _sub(self, d, g):
@@ -187,6 +237,7 @@ class ViewWorld:
                 self.did[id(nd)] = i
                 self.keep.append(nd)
         self.dc, self.app, self.viewer = new_dc, app, new_v
+        self.restored = True
 
     # ---- observation -----------------------------------------------------------------------
     def _sname(self, s):
@@ -242,13 +293,22 @@ def _run_view(case):
     gc.disable()
     w = ViewWorld(n, cls)
     snaps = [w.snapshot()]
+    dead = False
     for op in ops:
-        w.apply(op)
-        snaps.append(w.snapshot())
-    try:
-        w.viewer.cleanup()
-    except Exception:
-        pass
+        if not dead:
+            if op[0] == 'rst' and cls not in RESTORABLE:
+                # C12/F12: the load of a histogram / profile viewer with layers raises
+                try:
+                    w.apply(op)
+                except ValueError as exc:
+                    if 'glue_qt' not in str(exc):
+                        raise
+                    dead = True
+                    w.restored = True
+            else:
+                w.apply(op)
+        snaps.append('dead' if dead else w.snapshot())
+    w.recycle()
     w.keep.clear()
     return snaps
 
@@ -297,6 +357,7 @@ def view_sequences(alphabet, length):
 # core alphabet: collection ops on 2 datasets x 1 group + the viewer ops the property is about
 VCORE = [['app', 0], ['app', 1], ['rem', 0], ['rem', 1], ['ng'], ['rg', 0],
          ['vad', 0], ['vad', 1], ['vrd', 0]]
+VSMALL = [['app', 0], ['rem', 0], ['ng'], ['rg', 0], ['vad', 0]]
 # extended ops: exactly one of them somewhere in a core sequence
 VEXT = [['vas', 0, 0], ['vrs', 0, 0], ['vrl', 0, None], ['vrl', 0, 0], ['vps', 0, None], ['vps', 0, 0],
         ['vrd', 1], ['rg', 1], ['vas', 1, 0], ['vps', 1, None]]
@@ -380,12 +441,12 @@ class View(Family):
         self.colors = len(settings.SUBSET_COLORS)
 
     def setup(self):
-        gc.disable()
+        _gc_setup()
 
     def reset(self):
         Registry().clear()
         self._n = getattr(self, "_n", 0) + 1
-        if self._n % 20 == 0:
+        if self._n % 25 == 0:
             gc.collect()
 
     def cases(self, tier, rng):
@@ -408,13 +469,18 @@ class View(Family):
         for ops in seeds:
             for c in keys:
                 yield [ND, nc, c, ops]
+        # finding stratum (C12/F12 seen from here): restore of a histogram / profile viewer with layers
+        for c in ('hi', 'pr'):
+            yield [ND, nc, c, [['app', 0], ['vad', 0], ['rst']]]
+            yield [ND, nc, c, [['app', 0], ['ng'], ['vad', 0], ['rst'], ['vrd', 0]]]
+            yield [ND, nc, c, [['app', 0], ['rst'], ['vad', 0], ['ng']]]
         for ops in ([['app', 0], ['ng'], ['vad', 0], ['rst'], ['ng'], ['rem', 0]],
                     [['app', 0], ['app', 1], ['ng'], ['vad', 0], ['vad', 1], ['vps', 0, None], ['rst'], ['ng'], ['rg', 0]],
                     [['app', 0], ['ng'], ['vas', 0, 0], ['rst'], ['vad', 0], ['rst']]):
             for c in RESTORABLE:
                 yield [ND, nc, c, ops]
         # exhaustive: one extended op at every position of every core sequence
-        Lx = 3 if tier == "quick" else 4
+        Lx = 2 if tier == "quick" else 3
         for n_before in range(0, Lx + 1):
             for pre in view_sequences(VCORE, n_before):
                 for x in VEXT + [['rst']]:
@@ -428,10 +494,14 @@ class View(Family):
                         else:
                             yield [ND, nc, cls_next(), ops]
         # exhaustive: every core sequence of exactly L ops (shorter ones are prefixes)
-        L = 5 if tier == "quick" else 6
+        L = 4 if tier == "quick" else 5
         for ops in view_sequences(VCORE, L):
             if _canonical_view(ops):
                 yield [ND, nc, cls_next(), ops]
+        # longer histories over a smaller alphabet (one dataset, one group)
+        Ls = 5 if tier == "quick" else 7
+        for ops in view_sequences(VSMALL, Ls):
+            yield [ND, nc, cls_next(), ops]
 
 
 class ViewRandom(View):
@@ -443,7 +513,7 @@ class ViewRandom(View):
     def cases(self, tier, rng):
         nc = self.colors
         keys = list(VIEWERS)
-        n_cases = 600 if tier == "quick" else 20000
+        n_cases = 500 if tier == "quick" else 20000
         for i in range(n_cases):
             cls = keys[i % 4]
             nd = rng.choice([2, 3])
@@ -460,9 +530,770 @@ for _cls in (View, ViewRandom):
     _cls.signature = lambda self, case, po, res: {"construct": "+".join(sorted(_view_features(case))) or "plain"}
 
 
+
+# ---------------------------------------------------------------------------------------------
+# combo helpers
+# ---------------------------------------------------------------------------------------------
+
+from echo import SelectionCallbackProperty  # noqa: E402
+from echo.selection import ChoiceSeparator  # noqa: E402
+from glue.core.state_objects import State  # noqa: E402
+from glue.core.component_id import ComponentID  # noqa: E402
+from glue.core.coordinates import IdentityCoordinates, AffineCoordinates  # noqa: E402
+from glue.core.data_combo_helper import (ComponentIDComboHelper, ManualDataComboHelper,  # noqa: E402
+                                         DataCollectionComboHelper)
+from glue.viewers.image.state import ImageViewerState, ImageLayerState  # noqa: E402
+
+
+class ExState(State):
+    combo0 = SelectionCallbackProperty()
+    combo1 = SelectionCallbackProperty(default_index=1)
+    combom1 = SelectionCallbackProperty(default_index=-1)
+    combom2 = SelectionCallbackProperty(default_index=-2)
+    combo5 = SelectionCallbackProperty(default_index=5)
+
+
+PROP_BY_IDX = {0: 'combo0', 1: 'combo1', -1: 'combom1', -2: 'combom2', 5: 'combo5'}
+KIND_ATOM = {'numerical': 'num', 'categorical': 'cat', 'datetime': 'dt', 'extended': 'ext'}
+FLAG_ATTR = {'numeric': 'numeric', 'datetime': 'datetime', 'categorical': 'categorical',
+             'pixel': 'pixel_coord', 'world': 'world_coord', 'derived': 'derived', 'none': 'none'}
+SEP = {'Main components': 'sm', 'Derived components': 'sdv', 'Coordinate components': 'sc'}
+
+
+def _values(kind, k):
+    if kind == 'num':
+        return np.array([1., 2., 3.]) + k
+    if kind == 'cat':
+        return np.array(['u', 'v', 'w'])
+    return np.array(['2021-01-01', '2021-01-02', '2021-01-03'], dtype='datetime64[D]')
+
+
+class ComboWorld:
+    def __init__(self, n, idx):
+        self.data = [Data(c=np.array(['a', 'b', 'c']),
+                          t=np.array(['2020-01-01', '2020-01-02', '2020-01-03'], dtype='datetime64[D]'),
+                          x=[1., 2., 3.], coords=IdentityCoordinates(n_dim=1), label='d%i' % i) for i in range(n)]
+        self.cids = []
+        for d in self.data:
+            self.cids += [d.pixel_component_ids[0], d.world_component_ids[0]] + list(d.main_components)
+        self.serial = {id(c): k for k, c in enumerate(self.cids)}
+        self.dc = DataCollection(self.data)
+        self.state = ExState()
+        self.prop = PROP_BY_IDX[idx]
+        self.helper = ComponentIDComboHelper(self.state, self.prop, self.dc)
+        self.ctx = []
+        self.err = False
+        self.keep = [self.data, self.dc, self.state, self.helper]
+
+    def _reg(self, cid):
+        self.serial[id(cid)] = len(self.cids)
+        self.cids.append(cid)
+
+    def _comps(self, d):
+        return list(d.main_components) + [c for c in d.derived_components if c.parent is d]
+
+    def apply(self, op):
+        k = op[0]
+        self.err = False
+        n = len(self.data)
+        if k in ('ac', 'ad', 'rc', 'rn', 'ro', 'rp', 'ha', 'hr', 'dr', 'da') and op[1] >= n:
+            return
+        if k == 'ac':
+            d = self.data[op[1]]
+            cid = d.add_component(_values(op[2], len(self.cids)), 'n%i' % len(self.cids))
+            self._reg(cid)
+        elif k == 'ad':
+            d = self.data[op[1]]
+            lbl = 'v%i' % len(self.cids)
+            d[lbl] = d.pixel_component_ids[0] + 1
+            self._reg(d.id[lbl])
+        elif k == 'rc':
+            d = self.data[op[1]]
+            comps = self._comps(d)
+            if op[2] < len(comps):
+                d.remove_component(comps[op[2]])
+        elif k == 'rn':
+            d = self.data[op[1]]
+            comps = self._comps(d)
+            if op[2] < len(comps):
+                comps[op[2]].label = comps[op[2]].label + 'r'
+        elif k == 'ro':
+            d = self.data[op[1]]
+            d.reorder_components(list(reversed(d.components)))
+        elif k == 'rp':
+            d = self.data[op[1]]
+            mains = list(d.main_components)
+            if op[2] < len(mains):
+                new = ComponentID('u%i' % len(self.cids), parent=d)
+                d.update_id(mains[op[2]], new)
+                self._reg(new)
+        elif k == 'ha':
+            self.helper.append_data(self.data[op[1]])
+        elif k == 'hr':
+            self.helper.remove_data(self.data[op[1]])
+        elif k == 'hm':
+            self.helper.set_multiple_data([self.data[d] for d in op[1:] if d < n])
+        elif k == 'fl':
+            setattr(self.helper, FLAG_ATTR[op[1]], bool(op[2]))
+        elif k == 'dr':
+            self.dc.remove(self.data[op[1]])
+        elif k == 'da':
+            self.dc.append(self.data[op[1]])
+        elif k == 'sel':
+            v = op[1]
+            try:
+                if v is None:
+                    setattr(self.state, self.prop, None)
+                elif v < len(self.cids):
+                    setattr(self.state, self.prop, self.cids[v])
+                else:
+                    self.err = True  # an id that does not exist: the model rejects it too
+            except ValueError:
+                self.err = True
+        elif k == 'do':
+            c = self.dc.hub.delay_callbacks()
+            c.__enter__()
+            self.ctx.append(c)
+        elif k == 'dc':
+            if self.ctx:
+                self.ctx.pop().__exit__(None, None, None)
+        else:
+            raise ValueError(op)
+
+    def close(self):
+        while self.ctx:
+            self.ctx.pop().__exit__(None, None, None)
+
+    def _c(self, cid):
+        return self.serial.get(id(cid), 'X')
+
+    def _choice(self, ch):
+        if ch is None:
+            return 'N'
+        if isinstance(ch, ChoiceSeparator):
+            t = str(ch)
+            if t in SEP:
+                return SEP[t]
+            for i, d in enumerate(self.data):
+                if d.label == t:
+                    return ['sd', i]
+            return 'X'
+        return ['c', self._c(ch)]
+
+    def snapshot(self):
+        h = self.helper
+        F = ['F'] + [bool(getattr(h, FLAG_ATTR[f])) for f in ('numeric', 'datetime', 'categorical', 'pixel', 'world', 'derived', 'none')]
+        H = ['H']
+        for d in h._data:
+            i = self.data.index(d) if any(d is x for x in self.data) else 'X'
+            H.append([i,
+                      ['m'] + [[self._c(c), KIND_ATOM[d.get_kind(c)]] for c in d.main_components],
+                      ['dv'] + [self._c(c) for c in d.derived_components if c.parent is d],
+                      ['p'] + [self._c(c) for c in d.pixel_component_ids],
+                      ['w'] + [self._c(c) for c in d.world_component_ids]])
+        sel = h.selection
+        s = None if sel is None else (self._c(sel) if isinstance(sel, ComponentID) else 'X')
+        return [F, H, ['c'] + [self._choice(c) for c in h.choices], ['s', s], ['e', bool(self.err)],
+                ['q', len(self.ctx)]]
+
+
+def _run_combo(case):
+    n, idx, ops = case
+    gc.disable()
+    w = ComboWorld(n, idx)
+    snaps = [w.snapshot()]
+    try:
+        for op in ops:
+            w.apply(op)
+            snaps.append(w.snapshot())
+    finally:
+        w.close()
+    w.keep.clear()
+    return snaps
+
+
+CD = 2  # datasets in the combo world
+# initial ids: dataset i owns 5i (pixel) 5i+1 (world) 5i+2 (c) 5i+3 (t) 5i+4 (x); new ones from 5*CD
+COMBO_ALPHA = ([['ha', 0], ['ha', 1], ['hr', 0], ['hm', 1, 0], ['hm'],
+                ['ac', 0, 'num'], ['ac', 0, 'cat'], ['ac', 1, 'dt'], ['ad', 0], ['rc', 0, 0], ['rc', 0, 2], ['rc', 0, 3],
+                ['rn', 0, 0], ['ro', 0], ['rp', 0, 0], ['dr', 0], ['da', 0], ['do'], ['dc']] +
+               [['fl', f, b] for f in ('numeric', 'categorical', 'pixel', 'world', 'derived', 'none') for b in (True, False)] +
+               [['fl', 'datetime', False]] +
+               [['sel', v] for v in (None, 0, 1, 2, 4, 7, 10)])
+
+
+COMBO_CORE = [o for o in COMBO_ALPHA if o not in (
+    [['hm'], ['ac', 0, 'cat'], ['ac', 1, 'dt'], ['rc', 0, 3], ['da', 0], ['fl', 'categorical', True],
+     ['fl', 'numeric', True], ['fl', 'derived', True], ['fl', 'datetime', False], ['sel', 1], ['sel', 10],
+     ['hm', 1, 0], ['rn', 0, 0], ['fl', 'world', False]])]
+
+
+COMBO_SMALL = [['hr', 0], ['ha', 0], ['ac', 0, 'num'], ['ad', 0], ['rc', 0, 0], ['rc', 0, 2], ['ro', 0], ['rp', 0, 0],
+               ['dr', 0], ['do'], ['dc'], ['fl', 'numeric', False], ['fl', 'pixel', True], ['fl', 'derived', False],
+               ['fl', 'none', True], ['sel', None], ['sel', 2], ['sel', 4], ['sel', 5]]
+
+
+def combo_n(ops):
+    """number of datasets a history needs (datasets are expensive to build)"""
+    m = 0
+    for op in ops:
+        if op[0] == 'hm':
+            m = max([m] + list(op[1:]))
+        elif op[0] in ('ac', 'ad', 'rc', 'rn', 'ro', 'rp', 'ha', 'hr', 'dr', 'da'):
+            m = max(m, op[1])
+    return m + 1
+
+
+def combo_valid(ops):
+    """the client clears the selection only while `None` is on offer (none flag on); delay blocks
+    are balanced or left open at most 2 deep"""
+    none = False
+    for op in ops:
+        if op[0] == 'fl' and op[1] == 'none':
+            none = bool(op[2])
+        if op[0] == 'sel' and op[1] is None and not none:
+            return False
+    return True
+
+
+def random_combo_seq(rng, length):
+    ops = []
+    none = False
+    ncid = 5 * CD
+    while len(ops) < length:
+        r = rng.random()
+        d = rng.randrange(CD)
+        if r < 0.12:
+            op = ['ha', d]
+        elif r < 0.17:
+            op = ['hr', d]
+        elif r < 0.21:
+            op = ['hm'] + [rng.randrange(CD) for _ in range(rng.randint(0, 3))]
+        elif r < 0.30:
+            op = ['ac', d, rng.choice(['num', 'cat', 'dt'])]
+            ncid += 1
+        elif r < 0.35:
+            op = ['ad', d]
+            ncid += 1
+        elif r < 0.45:
+            op = ['rc', d, rng.randrange(5)]
+        elif r < 0.49:
+            op = ['rn', d, rng.randrange(4)]
+        elif r < 0.53:
+            op = ['ro', d]
+        elif r < 0.57:
+            op = ['rp', d, rng.randrange(3)]
+            ncid += 1
+        elif r < 0.61:
+            op = ['dr', d]
+        elif r < 0.64:
+            op = ['da', d]
+        elif r < 0.70:
+            op = ['do']
+        elif r < 0.77:
+            op = ['dc']
+        elif r < 0.89:
+            f = rng.choice(list(FLAG_ATTR))
+            b = rng.random() < 0.5
+            if f == 'none':
+                none = b
+            op = ['fl', f, b]
+        else:
+            v = rng.choice([None] + list(range(ncid)))
+            if v is None and not none:
+                continue
+            op = ['sel', v]
+        ops.append(op)
+    return ops
+
+
+def _shrink_ops(prefix, ops, valid=lambda o: True):
+    for k in range(len(ops) - 1, 0, -1):
+        yield prefix + [ops[:k]]
+    for i in range(len(ops)):
+        rest = ops[:i] + ops[i + 1:]
+        if valid(rest):
+            yield prefix + [rest]
+
+
+class Combo(Family):
+    name = "combo"
+    exhaustive = True
+    batch = 500
+    budget_share = 1.5
+
+    def setup(self):
+        _gc_setup()
+
+    def reset(self):
+        Registry().clear()
+        self._n = getattr(self, "_n", 0) + 1
+        if self._n % 500 == 0:
+            gc.collect()
+
+    def cases(self, tier, rng):
+        idxs = [0, 1, -1, -2, 5]
+        k = 0
+        # suspected: selection of a removed component inside a delay block
+        for idx in idxs:
+            yield [CD, idx, [['ha', 0], ['do'], ['rc', 0, 0], ['sel', 2], ['dc']]]
+            yield [CD, idx, [['ha', 0], ['sel', 4], ['do'], ['rc', 0, 2], ['do'], ['dc'], ['ac', 0, 'num'], ['dc']]]
+            yield [CD, idx, [['ha', 0], ['ha', 1], ['sel', 7], ['do'], ['dr', 1], ['dc']]]
+            yield [CD, idx, [['ha', 0], ['fl', 'none', True], ['sel', None], ['fl', 'none', False], ['rp', 0, 0]]]
+        # every sequence of L ops over the core alphabet after `ha 0`; every sequence of L-1 ops over
+        # the full alphabet after each of three prefixes
+        if tier == "quick":
+            blocks = [([['ha', 0]], COMBO_CORE, 3), ([['ha', 0]], COMBO_ALPHA, 2),
+                      ([['ha', 0], ['ha', 1]], COMBO_ALPHA, 2), ([], COMBO_ALPHA, 2)]
+        else:
+            blocks = [([['ha', 0]], COMBO_ALPHA, 3), ([['ha', 0], ['ha', 1]], COMBO_ALPHA, 3), ([], COMBO_ALPHA, 3),
+                      ([['ha', 0]], COMBO_SMALL, 4), ([['ha', 0]], COMBO_CORE, 3)]
+        for pre, alpha, n in blocks:
+            for seq in itertools.product(alpha, repeat=n):
+                ops = [list(o) for o in pre] + [list(o) for o in seq]
+                if combo_valid(ops):
+                    yield [combo_n(ops), idxs[k % 5], ops]
+                    k += 1
+
+    def run_impl(self, case):
+        return _run_combo(case)
+
+    def line(self, case, pyout):
+        return sx(["combo", case, pyout])
+
+    def nontrivial(self, case, po):
+        return any(op[0] in ('ha', 'hm') for op in case[2]) and any(op[0] in ('ac', 'ad', 'rc', 'ro', 'rp', 'fl', 'dr') for op in case[2])
+
+    def shrink(self, case):
+        return _shrink_ops([case[0], case[1]], case[2], combo_valid)
+
+    def signature(self, case, po, res):
+        return {"construct": "combo"}
+
+
+class ComboRandom(Combo):
+    name = "combor"
+    exhaustive = False
+    batch = 200
+    budget_share = 0.6
+
+    def cases(self, tier, rng):
+        n = 3000 if tier == "quick" else 60000
+        for i in range(n):
+            yield [CD, [0, 1, -1, -2, 5][i % 5], random_combo_seq(rng, rng.randint(4, 15 if tier == "quick" else 40))]
+
+
+# ---- dataset pickers ------------------------------------------------------------------------
+
+class DComboWorld:
+    def __init__(self, n, auto, idx, in_dc):
+        self.data = [Data(x=[1., 2., 3.], label='d%i' % i) for i in range(n)]
+        self.dc = DataCollection([self.data[d] for d in in_dc])
+        self.state = ExState()
+        self.prop = PROP_BY_IDX[idx]
+        self.auto = auto
+        if auto:
+            self.helper = DataCollectionComboHelper(self.state, self.prop, self.dc)
+        else:
+            self.helper = ManualDataComboHelper(self.state, self.prop, data_collection=self.dc)
+        self.ctx = []
+        self.err = False
+        self.nl = 0
+
+    def apply(self, op):
+        k = op[0]
+        self.err = False
+        n = len(self.data)
+        if k in ('da', 'dr', 'ha', 'hr', 'rl') and op[1] >= n:
+            return
+        if k == 'da':
+            self.dc.append(self.data[op[1]])
+        elif k == 'dr':
+            self.dc.remove(self.data[op[1]])
+        elif k == 'ha':
+            if not self.auto:
+                self.helper.append_data(self.data[op[1]])
+        elif k == 'hr':
+            if not self.auto:
+                self.helper.remove_data(self.data[op[1]])
+        elif k == 'hm':
+            if not self.auto:
+                self.helper.set_multiple_data([self.data[d] for d in op[1:] if d < n])
+        elif k == 'rl':
+            self.nl += 1
+            self.data[op[1]].label = 'L%i' % self.nl
+        elif k == 'sel':
+            try:
+                if op[1] is None:
+                    setattr(self.state, self.prop, None)
+                elif op[1] < n:
+                    setattr(self.state, self.prop, self.data[op[1]])
+                else:
+                    self.err = True
+            except ValueError:
+                self.err = True
+        elif k == 'do':
+            c = self.dc.hub.delay_callbacks()
+            c.__enter__()
+            self.ctx.append(c)
+        elif k == 'dc':
+            if self.ctx:
+                self.ctx.pop().__exit__(None, None, None)
+        else:
+            raise ValueError(op)
+
+    def close(self):
+        while self.ctx:
+            self.ctx.pop().__exit__(None, None, None)
+
+    def _d(self, obj):
+        for i, d in enumerate(self.data):
+            if d is obj:
+                return i
+        return 'X'
+
+    def snapshot(self):
+        h = self.helper
+        sel = h.selection
+        return [['D'] + [self._d(d) for d in self.dc.data],
+                ['M'] + ([] if self.auto else [self._d(d) for d in h._datasets]),
+                ['c'] + [('N' if c is None else ['c', self._d(c)]) for c in h.choices],
+                ['s', None if sel is None else self._d(sel)], ['e', bool(self.err)], ['q', len(self.ctx)]]
+
+
+def _run_dcombo(case):
+    n, auto, idx, in_dc, ops = case
+    gc.disable()
+    w = DComboWorld(n, auto, idx, in_dc)
+    snaps = [w.snapshot()]
+    try:
+        for op in ops:
+            w.apply(op)
+            snaps.append(w.snapshot())
+    finally:
+        w.close()
+    return snaps
+
+
+DCOMBO_ALPHA = [['da', 0], ['da', 1], ['da', 2], ['dr', 0], ['dr', 1], ['ha', 0], ['ha', 1], ['hr', 0], ['hm', 1, 0, 1],
+                ['rl', 0], ['sel', 0], ['sel', 1], ['sel', 2], ['do'], ['dc']]
+
+
+class DCombo(Family):
+    name = "dcombo"
+    exhaustive = True
+    batch = 500
+    budget_share = 0.5
+
+    def setup(self):
+        _gc_setup()
+
+    def reset(self):
+        Registry().clear()
+
+    def cases(self, tier, rng):
+        L = 3 if tier == "quick" else 4
+        k = 0
+        idxs = [0, 1, -1, 5]
+        for auto in (True, False):
+            alpha = [o for o in DCOMBO_ALPHA if auto is False or o[0] not in ('ha', 'hr', 'hm')]
+            for in_dc in ([], [0, 1]):
+                n = L + 1 if (auto and in_dc) else L
+                for seq in itertools.product(alpha, repeat=n):
+                    ops = [list(o) for o in seq]
+                    nd = 1 + max([1 if in_dc else 0] + [max(o[1:]) for o in ops if o[0] in ('da', 'dr', 'ha', 'hr', 'hm', 'rl')])
+                    yield [nd, auto, idxs[k % 4], in_dc, ops]
+                    k += 1
+
+    def run_impl(self, case):
+        return _run_dcombo(case)
+
+    def line(self, case, pyout):
+        return sx(["dcombo", case, pyout])
+
+    def nontrivial(self, case, po):
+        return any(op[0] in ('da', 'dr') for op in case[4])
+
+    def shrink(self, case):
+        return _shrink_ops(case[:4], case[4])
+
+    def signature(self, case, po, res):
+        return {"construct": "dcombo"}
+
+
+# ---- image axes -----------------------------------------------------------------------------
+
+def _mk_axes_data(ndim, coords, i):
+    shape = (2, 3, 4, 2)[:ndim]
+    c = None
+    if coords == 'id':
+        c = IdentityCoordinates(n_dim=ndim)
+    elif coords == 'aff':
+        m = np.eye(ndim + 1)
+        m[0, ndim] = 1.
+        if ndim >= 2:
+            m[0, 1] = 1.
+        c = AffineCoordinates(m)
+    return Data(x=np.zeros(shape), coords=c, label='a%i' % i)
+
+
+_AXES_DATA = {}
+
+
+def _axes_data(n, c, i):
+    # the datasets are never mutated by an ImageViewerState and belong to no collection / hub: they
+    # are built once per process and shared by all cases
+    key = (n, c, i)
+    if key not in _AXES_DATA:
+        _AXES_DATA[key] = _mk_axes_data(n, c, i)
+    return _AXES_DATA[key]
+
+
+class AxesWorld:
+    def __init__(self, ndims, coords):
+        self.data = [_axes_data(n, c, i) for i, (n, c) in enumerate(zip(ndims, coords))]
+        self.state = ImageViewerState()
+        self.ls = {}
+        self.err = False
+        self.crashed = False
+        self.keep = []
+
+    def _ref(self):
+        r = self.state.reference_data
+        for i, d in enumerate(self.data):
+            if d is r:
+                return i
+        return None
+
+    def apply(self, op):
+        if self.crashed:
+            return
+        k, a = op
+        st = self.state
+        self.err = False
+        ref = st.reference_data
+        try:
+            if k in ('x', 'y'):
+                if ref is None or a >= ref.ndim:
+                    return  # outside the modelled domain; never generated
+                setattr(st, k + '_att', ref.pixel_component_ids[a])
+            elif k in ('xw', 'yw'):
+                if ref is not None and a < ref.ndim:
+                    ids = ref.world_component_ids if ref.coords is not None else ref.pixel_component_ids
+                    v = ids[a]
+                else:
+                    v = ComponentID('not-a-choice')
+                setattr(st, 'x_att_world' if k == 'xw' else 'y_att_world', v)
+            elif k == 'ref':
+                st.reference_data = self.data[a]
+            elif k == 'al':
+                if a not in self.ls:
+                    ls = ImageLayerState(layer=self.data[a], viewer_state=st)
+                    self.ls[a] = ls
+                    self.keep.append(ls)
+                    st.layers.append(ls)
+            elif k == 'rl':
+                if a in self.ls:
+                    st.layers.remove(self.ls.pop(a))
+            else:
+                raise ValueError(op)
+        except ValueError:
+            self.err = True
+        except IndexError:
+            self.crashed = True
+
+    def _tok(self, cid):
+        if cid is None:
+            return None
+        for i, d in enumerate(self.data):
+            for j, c in enumerate(d.pixel_component_ids):
+                if c is cid:
+                    return [i, 'p', j]
+            for j, c in enumerate(d.world_component_ids):
+                if c is cid:
+                    return [i, 'w', j]
+        return ['X', 'p', 0]
+
+    def snapshot(self):
+        if self.crashed:
+            return 'crash'
+        st = self.state
+        layers = []
+        for ls in st.layers:
+            for i, d in enumerate(self.data):
+                if d is ls.layer and i not in layers:
+                    layers.append(i)
+        return [['l'] + layers, ['r', self._ref()], ['x', self._tok(st.x_att)], ['y', self._tok(st.y_att)],
+                ['xw', self._tok(st.x_att_world)], ['yw', self._tok(st.y_att_world)], ['e', bool(self.err)]]
+
+
+def _run_axes(case):
+    ndims, worlds, coords, ops = case
+    gc.disable()
+    w = AxesWorld(ndims, coords)
+    snaps = [w.snapshot()]
+    for op in ops:
+        w.apply(op)
+        snaps.append(w.snapshot())
+    return snaps
+
+
+def axes_sequences(ndims, length, alphabet, prefix):
+    """all op sequences of `length` after `prefix`; x / y setters only with an axis of the current
+    reference data (tracked the way the Spec's hypothesis describes it)"""
+    def track(layers, ref, op):
+        k, a = op
+        layers = list(layers)
+        if k == 'al' and a not in layers:
+            layers.append(a)
+        elif k == 'rl' and a in layers:
+            layers.remove(a)
+        elif k == 'ref' and a in layers:
+            ref = a
+        if ref not in layers:
+            ref = layers[0] if layers else None
+        return layers, ref
+
+    def rec(seq, layers, ref, n):
+        if n == 0:
+            yield seq
+            return
+        for op in alphabet:
+            if op[0] in ('x', 'y') and (ref is None or op[1] >= ndims[ref]):
+                continue
+            l2, r2 = track(layers, ref, op)
+            yield from rec(seq + [list(op)], l2, r2, n - 1)
+
+    layers, ref = [], None
+    for op in prefix:
+        layers, ref = track(layers, ref, op)
+    yield from rec([list(o) for o in prefix], layers, ref, length)
+
+
+def _axes_filter(ndims, seq):
+    """drop x / y setters that do not name an axis of the current reference data"""
+    layers, ref, out = [], None, []
+    for op in seq:
+        k, a = op
+        if k in ('x', 'y') and (ref is None or a >= ndims[ref]):
+            continue
+        if k == 'al' and a not in layers:
+            layers.append(a)
+        elif k == 'rl' and a in layers:
+            layers.remove(a)
+        elif k == 'ref' and a in layers:
+            ref = a
+        if ref not in layers:
+            ref = layers[0] if layers else None
+        out.append(op)
+    return out
+
+
+AXES_SETTERS = [[k, i] for k in ('x', 'y', 'xw', 'yw') for i in range(3)]
+AXES_ALPHA = AXES_SETTERS + [['ref', 0], ['ref', 1], ['al', 0], ['al', 1], ['rl', 0], ['rl', 1]]
+
+
+class Axes(Family):
+    name = "axes"
+    exhaustive = True
+    batch = 300
+    budget_share = 1.0
+
+    def setup(self):
+        _gc_setup()
+
+    def reset(self):
+        Registry().clear()
+        self._n = getattr(self, "_n", 0) + 1
+        if self._n % 300 == 0:
+            gc.collect()
+
+    def cases(self, tier, rng):
+        kinds = ['none', 'id', 'aff']
+        # the finding stratum: a 1-d dataset becomes the reference data
+        yield [[2, 1], [False, False], ['none', 'none'], [['al', 0], ['al', 1], ['rl', 0]]]
+        yield [[3, 1], [True, True], ['id', 'id'], [['al', 0], ['al', 1], ['ref', 1]]]
+        ndims = [3, 2]
+        pre = [['al', 0], ['al', 1]]
+        k = 0
+
+        def kind():
+            nonlocal k
+            k += 1
+            return kinds[k % 3]
+        if tier == "quick":
+            # every setter sequence of length 3 on the 3-d and (after ref 1) the 2-d reference data,
+            # coordinate kind rotating; every sequence of length 3 over the full alphabet
+            for p in (pre, pre + [['ref', 1]]):
+                for seq in axes_sequences(ndims, 3, AXES_SETTERS, p):
+                    c = kind()
+                    yield [ndims, [c != 'none'] * 2, [c, c], seq]
+            for seq in axes_sequences(ndims, 2, AXES_ALPHA, pre):
+                c = kind()
+                yield [ndims, [c != 'none'] * 2, [c, c], seq]
+            # samples: length-3 sequences over the full alphabet, length-4 setter sequences, mixed
+            # coordinate kinds, longer mixed histories (all enumerated in the thorough tier)
+            allseq = list(axes_sequences(ndims, 3, AXES_ALPHA, pre))
+            for seq in rng.sample(allseq, 1200):
+                c = kind()
+                yield [ndims, [c != 'none'] * 2, [c, c], seq]
+            allseq = list(axes_sequences(ndims, 4, AXES_SETTERS, pre))
+            for seq in rng.sample(allseq, 400):
+                c = kind()
+                yield [ndims, [c != 'none'] * 2, [c, c], seq]
+            mixed = (['none', 'id'], ['aff', 'none'], ['id', 'aff'])
+            allseq = list(axes_sequences(ndims, 3, AXES_ALPHA, pre))
+            for seq in rng.sample(allseq, 300):
+                cs = mixed[k % 3]
+                k += 1
+                yield [ndims, [c != 'none' for c in cs], cs, seq]
+            for _ in range(300):
+                seq = []
+                for _ in range(rng.randint(4, 10)):
+                    seq.append(list(rng.choice(AXES_ALPHA)))
+                seq = _axes_filter(ndims, seq)
+                cs = [rng.choice(kinds), rng.choice(kinds)]
+                yield [ndims, [c != 'none' for c in cs], cs, seq]
+        else:
+            # every setter sequence of length <= 4 for every coordinate kind; every sequence of length
+            # 4 over the full alphabet (kind rotating); length 3 with mixed coordinate kinds
+            for c in kinds:
+                for p in (pre, pre + [['ref', 1]]):
+                    for seq in axes_sequences(ndims, 4, AXES_SETTERS, p):
+                        yield [ndims, [c != 'none'] * 2, [c, c], seq]
+            for seq in axes_sequences(ndims, 4, AXES_ALPHA, pre):
+                c = kind()
+                yield [ndims, [c != 'none'] * 2, [c, c], seq]
+            for cs in (['none', 'id'], ['aff', 'none'], ['id', 'aff']):
+                for seq in axes_sequences(ndims, 3, AXES_ALPHA, pre):
+                    yield [ndims, [c != 'none' for c in cs], cs, seq]
+            for _ in range(40000):
+                seq = []
+                for _ in range(rng.randint(4, 14)):
+                    seq.append(list(rng.choice(AXES_ALPHA)))
+                seq = _axes_filter(ndims, seq)
+                cs = [rng.choice(kinds), rng.choice(kinds)]
+                yield [ndims, [c != 'none' for c in cs], cs, seq]
+
+    def run_impl(self, case):
+        return _run_axes(case)
+
+    def line(self, case, pyout):
+        return sx(["axes", [case[0], case[1], case[3]], pyout])
+
+    def nontrivial(self, case, po):
+        return any(op[0] in ('x', 'y', 'xw', 'yw') for op in case[3])
+
+    def shrink(self, case):
+        return _shrink_ops(case[:3], case[3])
+
+    def signature(self, case, po, res):
+        return {"construct": "1d-reference" if min(case[0]) < 2 else "axes"}
+
+
 PROP = Property(
     id="C18",
     title="Viewers and attribute pickers mirror the collection",
     theorems=["C18.placeholder"],
-    families=[View(), ViewRandom()],
+    families=[Axes(), Combo(), ComboRandom(), DCombo(), View(), ViewRandom()],
 )
